@@ -207,8 +207,10 @@ def preprocess(stmts, none, res, notes):
     return out
 
 
-def backward_slice(stmts, opaque):
-    """statements needed by the final `return`; definitions of `opaque` names are cut"""
+def backward_slice(stmts, opaque, allowed_defs=None):
+    """statements needed by the final `return`; definitions of `opaque` names are cut.
+    `allowed_defs` (list of source texts): when given, a statement that (re)defines an
+    opaque name must be one of them -- anything else is outside the subset (fail closed)"""
     if not stmts or not isinstance(stmts[-1], ast.Return):
         raise TranslateError("slice: body does not end in a return")
     need = _names(stmts[-1], ast.Load)
@@ -221,9 +223,17 @@ def backward_slice(stmts, opaque):
             need |= _names(st, ast.Load)
             continue
         defs = _stored(st)
+        if allowed_defs is not None and defs & set(opaque) and \
+                ast.unparse(st) not in allowed_defs:
+            raise TranslateError("slice: unexpected (re)definition of %s: %s (line %d)" % (
+                sorted(defs & set(opaque)), ast.unparse(st)[:70], st.lineno))
         if not (defs & need):
             continue
         if defs & set(opaque):
+            if allowed_defs is not None and ast.unparse(st) not in allowed_defs:
+                raise TranslateError(
+                    "slice: unexpected (re)definition of %s: %s (line %d)" % (
+                        sorted(defs & set(opaque)), ast.unparse(st)[:70], st.lineno))
             if defs - set(opaque) and (defs - set(opaque)) & need:
                 raise TranslateError("slice: statement defines opaque and needed names "
                                      "(line %d)" % st.lineno)
@@ -234,14 +244,15 @@ def backward_slice(stmts, opaque):
     return keep
 
 
-def synth(fn, name, params, none=None, opaque=(), notes=None, upto_return=True):
+def synth(fn, name, params, none=None, opaque=(), notes=None, upto_return=True,
+          allowed_defs=None):
     """FunctionDef `name(self, *params)` = preprocessed backward slice of fn's body"""
     notes = notes if notes is not None else []
     res = solver_results(fn)
     body = preprocess(fn.body, none or {}, res, notes)
     body = [s for s in body if not (isinstance(s, ast.Expr) and
                                     isinstance(s.value, ast.Constant))]
-    body = backward_slice(body, opaque)
+    body = backward_slice(body, opaque, allowed_defs)
     new = ast.FunctionDef(
         name=name,
         args=ast.arguments(posonlyargs=[], args=[ast.arg(arg="self")] +
@@ -371,7 +382,8 @@ def gen_hydrodynamics(src, helpers_src, notes):
     fhb = _method(tr, fn, "findHydroBoundaries")
     fn["findHydroBoundaries_r"] = synth(
         fhb, "findHydroBoundaries_r", ["vwTry", "vp", "vm", "Tp", "Tm"],
-        none={"vp": False}, opaque=["vp", "vm", "Tp", "Tm"], notes=notes)
+        none={"vp": False}, opaque=["vp", "vm", "Tp", "Tm"], notes=notes,
+        allowed_defs=["vp, vm, Tp, Tm = self.findMatching(vwTry)"])
     defs.append(tr.method("findHydroBoundaries_r", coq_name="findHydroBoundaries"))
     return tr, defs
 
@@ -465,7 +477,10 @@ def gen_template(src, helpers_src, notes):
     fn["findHydroBoundaries_r"] = synth(
         fhb, "findHydroBoundaries_r", ["vwTry", "vp", "vm", "Tp", "Tm"],
         none={"vp": False, "vm": False, "Tp": False, "Tm": False},
-        opaque=["vp", "vm", "Tp", "Tm"], notes=notes)
+        opaque=["vp", "vm", "Tp", "Tm"], notes=notes,
+        allowed_defs=["vp, vm, Tp, Tm = self.findMatching(vwTry)",
+                      "(vp, vm, Tp, Tm) = (float(vp), float(vm), float(Tp), float(Tm))",
+                      "vp, vm, Tp, Tm = (float(vp), float(vm), float(Tp), float(Tm))"])
     defs.append(tr.method("findHydroBoundaries_r", coq_name="t_findHydroBoundaries"))
     return tr, defs
 
@@ -514,6 +529,54 @@ def tolerance_facts(src, cls):
     return sorted(out)
 
 
+PATH_SHAPES = {
+    "vp, vm, Tp, Tm = self.matchDeton(vwTry)": "KAssignDeton",
+    "vp, vm, Tp, Tm = self.matchDeflagOrHyb(vwTry, sol.root)": "KAssignDeflag",
+    "vp, vm, Tp, Tm = self.findMatching(vwTry)": "KAssignFindMatching",
+    "return self.template.findMatching(vwTemplate)": "KRetTemplate",
+    "return (vp, vm, Tp, Tm)": "KRetNames",
+    "return (0, 0, 0, 0, 0)": "KRetZeros",
+    "return (vp, vm, Tp, Tm, None)": "KRetNone",
+    "return (c1, c2, Tp, Tm, velocityMid)": "KRetBoundaries",
+}
+
+
+def path_facts(src, cls, methods):
+    """every `return` and every (re)definition of vp/vm/Tp/Tm in the given methods (nested
+    closures excluded), classified by its exact shape; anything else is KOther"""
+    tree = ast.parse(src)
+    node = [n for n in tree.body if isinstance(n, ast.ClassDef) and n.name == cls]
+    if not node:
+        raise TranslateError("class %s not found" % cls)
+    fns = {f.name: f for f in node[0].body if isinstance(f, ast.FunctionDef)}
+    out = []
+
+    def walk(st, m):
+        if isinstance(st, (ast.FunctionDef, ast.Lambda, ast.ClassDef)):
+            return
+        if isinstance(st, ast.Return):
+            out.append((m, st.lineno, PATH_SHAPES.get(ast.unparse(st), "KOther")))
+        elif isinstance(st, (ast.Assign, ast.AugAssign, ast.AnnAssign)):
+            if _stored(st) & {"vp", "vm", "Tp", "Tm"}:
+                out.append((m, st.lineno, PATH_SHAPES.get(ast.unparse(st), "KOther")))
+        elif isinstance(st, (ast.For, ast.While, ast.With)) and \
+                _stored(st) & {"vp", "vm", "Tp", "Tm"} and not any(
+                    isinstance(c, (ast.Assign, ast.AugAssign)) for c in ast.walk(st)):
+            out.append((m, st.lineno, "KOther"))
+        for c in ast.iter_child_nodes(st):
+            if isinstance(c, ast.stmt):
+                walk(c, m)
+            elif isinstance(c, ast.ExceptHandler):
+                for cc in c.body:
+                    walk(cc, m)
+    for name, tag in methods:
+        if name not in fns:
+            raise TranslateError("method %s not found" % name)
+        for st in fns[name].body:
+            walk(st, tag)
+    return out
+
+
 def generate(hydro_src, template_src, helpers_src):
     """-> (coq text, spans, notes)"""
     notes = _Notes()
@@ -528,6 +591,11 @@ def generate(hydro_src, template_src, helpers_src):
     facts_coq = "(* tolerance keywords of every root_scalar / root call, by source line *)\n" \
         "Definition tol_facts : list tolfact :=\n  (" + "\n   :: ".join(
             "mk_tolfact %d %s %s %s (* %s *)" % f for f in facts) + "\n   :: nil)%list."
+    pfacts = path_facts(hydro_src, "Hydrodynamics", [("findMatching", "MFindMatching"), (
+        "findHydroBoundaries", "MFindHydroBoundaries")])
+    facts_coq += "\n(* return paths / definitions of vp,vm,Tp,Tm in findMatching and " \
+        "findHydroBoundaries *)\nDefinition path_facts : list pathfact :=\n  (" + \
+        "\n   :: ".join("mk_pathfact %s %d %s" % f for f in pfacts) + "\n   :: nil)%list."
     out = [pyrx.COQ_PRELUDE + "From Coq Require Import List.\n"
            "From WG Require Import Lib.HydroMatch.\n",
            "(* generated from src/WallGo/hydrodynamics.py, helpers.py, "
